@@ -10,7 +10,7 @@
     so a semantic change of a translated Go function breaks the lemma of that function (or of a
     caller) on that run, for ALL inputs, independently of what the sampled correspondence run
     happens to hit. Nothing admitted; no axioms in the integer/bit/byte groups (can, descriptor,
-    wire, netlink, scan); the floating-point groups (physical, apidecide) are on Flocq and depend
+    wire, netlink, scan, dbcid, dbcvalidate); the floating-point groups (physical, apidecide) are on Flocq and depend
     on the standard-library axioms its lemmas use, and on nothing else (checked by
     checks/translate_tie.py against vlib.AXIOM_WHITELIST).
 
@@ -1053,4 +1053,117 @@ Proof.
   unfold Receiver.scan_frames. change Wire.lengthOfFrame with 16.
   destruct (Z.ltb_spec (Z.of_nat (length data)) 16) as [H | H]; cbn [fst snd]; [discriminate |].
   intros E. assert (Et : t = firstn 16 data) by congruence. rewrite Et, firstn_length. lia.
+Qed.
+
+(* @group dbcid *)
+(** ** pkg/dbc/messageid.go  (models: Dbc/Ast.v [msgid_is_extended], [msgid_to_can], [msgid_valid];
+       used by the parser model Dbc/Parser.v [p_message_id] and by Dbc/Compile*.v).
+       Precondition = the Go type: MessageID is a uint32. *)
+From CanVerif Require Dbc.Ast.
+
+Lemma T_MessageID_IsExtended_eq m : Translated.MessageID_IsExtended m = Dbc.Ast.msgid_is_extended m.
+Proof. reflexivity. Qed.
+
+(** [m &^ 0x80000000] on a uint32 clears bit 31: the low 31 bits *)
+Lemma andnot_flag31 m : in_u 32 m -> go_andnot m 2147483648 = Z.land m 2147483647.
+Proof.
+  intros [H0 H1]. unfold go_andnot. apply Z.bits_inj'. intros i Hi.
+  rewrite Z.ldiff_spec, Z.land_spec.
+  change 2147483648 with (2 ^ 31). change 2147483647 with (Z.ones 31).
+  rewrite Z.pow2_bits_eqb by lia. rewrite Z.testbit_ones_nonneg by lia.
+  destruct (Z.eqb_spec 31 i) as [<- | Hne].
+  - cbn. now rewrite andb_false_r.
+  - destruct (Z.ltb_spec i 31); cbn; [now rewrite andb_true_r |].
+    rewrite andb_false_r, andb_true_r.
+    assert (Hm : m = 0 \/ 0 < m) by lia. destruct Hm as [-> | Hm]; [apply Z.bits_0 |].
+    apply Z.bits_above_log2; [lia |]. apply Z.log2_lt_pow2; [lia |]. eapply Z.lt_le_trans; [exact H1 |].
+    apply Z.pow_le_mono_r; lia.
+Qed.
+
+Lemma T_MessageID_ToCAN_eq m : in_u 32 m -> Translated.MessageID_ToCAN m = Dbc.Ast.msgid_to_can m.
+Proof.
+  intros H. unfold Translated.MessageID_ToCAN, Dbc.Ast.msgid_to_can.
+  rewrite wrap_u_small; [apply andnot_flag31, H |].
+  apply go_andnot_range_u; [lia | exact H | apply in_u_lit; reflexivity].
+Qed.
+
+(** Validate: [err_nil] = [true] = the model's "valid" *)
+Lemma T_MessageID_Validate_eq m : in_u 32 m -> Translated.MessageID_Validate m = Dbc.Ast.msgid_valid m.
+Proof.
+  intros H. unfold Translated.MessageID_Validate, Dbc.Ast.msgid_valid.
+  rewrite T_MessageID_IsExtended_eq, (T_MessageID_ToCAN_eq m H).
+  change Dbc.Ast.msgid_independent with 3221225472.
+  destruct (m =? 3221225472); [reflexivity |].
+  destruct (Dbc.Ast.msgid_is_extended m); cbn [andb negb].
+  - rewrite Z.leb_antisym. destruct (536870911 <? Dbc.Ast.msgid_to_can m); reflexivity.
+  - rewrite Z.leb_antisym. destruct (2047 <? Dbc.Ast.msgid_to_can m); reflexivity.
+Qed.
+
+(* @group dbcvalidate *)
+(** ** internal/identifiers/char.go and the Validate methods of pkg/dbc's small enumeration types
+       (models: Dbc/Parser.v [is_alpha], [is_num] - the character classes of Dbc/Validate.v's
+       [validate_loop] and of [ident_valid] -, Dbc/Lint.v [is_alpha_char], [is_num_char];
+       [p_small_enum], [access_type_of], [attr_type_of], [object_type_of] of the parser model:
+       the parser accepts the token iff Validate returns nil).  No preconditions. *)
+From CanVerif Require Dbc.Ast Dbc.Parser Dbc.Lint.
+
+Lemma T_IsAlphaChar_eq r : Translated.IsAlphaChar r = Dbc.Parser.is_alpha r.
+Proof. reflexivity. Qed.
+Lemma T_IsAlphaChar_eq' r : Translated.IsAlphaChar r = Dbc.Lint.is_alpha_char r.
+Proof. reflexivity. Qed.
+Lemma T_IsNumChar_eq r : Translated.IsNumChar r = Dbc.Parser.is_num r.
+Proof. reflexivity. Qed.
+Lemma T_IsNumChar_eq' r : Translated.IsNumChar r = Dbc.Lint.is_num_char r.
+Proof. reflexivity. Qed.
+
+Definition is_some {A : Type} (o : option A) : bool := match o with Some _ => true | None => false end.
+
+Lemma go_string_eqb_bytes_eqb a b : go_string_eqb a b = Dbc.Ast.bytes_eqb a b.
+Proof. revert b; induction a as [| x a IH]; intros [| y b]; cbn; auto. Qed.
+
+(** signalValueType / environmentVariableType: [p_small_enum 2] accepts u iff [u <=? 2] (u a uint64) *)
+Lemma small_enum_le2 s : 0 <= s ->
+  (if s =? 0 then err_nil else if s =? 1 then err_nil else if s =? 2 then err_nil else err_nonnil) = (s <=? 2).
+Proof.
+  intros H. destruct (Z.eqb_spec s 0) as [-> | ?]; [reflexivity |]. destruct (Z.eqb_spec s 1) as [-> | ?]; [reflexivity |].
+  destruct (Z.eqb_spec s 2) as [-> | ?]; [reflexivity |]. unfold err_nonnil. symmetry. apply Z.leb_gt. lia.
+Qed.
+
+Lemma T_SignalValueType_Validate_eq s : in_u 64 s -> Translated.SignalValueType_Validate s = (s <=? 2).
+Proof. intros [H _]. unfold Translated.SignalValueType_Validate. cbv zeta. apply small_enum_le2, H. Qed.
+
+Lemma T_EnvironmentVariableType_Validate_eq e : in_u 64 e -> Translated.EnvironmentVariableType_Validate e = (e <=? 2).
+Proof. intros [H _]. unfold Translated.EnvironmentVariableType_Validate. cbv zeta. apply small_enum_le2, H. Qed.
+
+Lemma T_AccessType_Validate_eq a : Translated.AccessType_Validate a = is_some (Dbc.Parser.access_type_of a).
+Proof.
+  unfold Translated.AccessType_Validate, Dbc.Parser.access_type_of. cbv zeta. change go_string_eqb with Dbc.Ast.bytes_eqb.
+  change [68; 85; 77; 77; 89; 95; 78; 79; 68; 69; 95; 86; 69; 67; 84; 79; 82; 48] with Dbc.Parser.s_ACC0.
+  change [68; 85; 77; 77; 89; 95; 78; 79; 68; 69; 95; 86; 69; 67; 84; 79; 82; 49] with Dbc.Parser.s_ACC1.
+  change [68; 85; 77; 77; 89; 95; 78; 79; 68; 69; 95; 86; 69; 67; 84; 79; 82; 50] with Dbc.Parser.s_ACC2.
+  change [68; 85; 77; 77; 89; 95; 78; 79; 68; 69; 95; 86; 69; 67; 84; 79; 82; 51] with Dbc.Parser.s_ACC3.
+  repeat match goal with |- context [Dbc.Ast.bytes_eqb a ?k] => destruct (Dbc.Ast.bytes_eqb a k); [reflexivity |] end.
+  reflexivity.
+Qed.
+
+Lemma T_AttributeValueType_Validate_eq a : Translated.AttributeValueType_Validate a = is_some (Dbc.Parser.attr_type_of a).
+Proof.
+  unfold Translated.AttributeValueType_Validate, Dbc.Parser.attr_type_of. cbv zeta. change go_string_eqb with Dbc.Ast.bytes_eqb.
+  change [73; 78; 84] with Dbc.Parser.s_INT. change [72; 69; 88] with Dbc.Parser.s_HEX.
+  change [70; 76; 79; 65; 84] with Dbc.Parser.s_FLOAT. change [83; 84; 82; 73; 78; 71] with Dbc.Parser.s_STRING.
+  change [69; 78; 85; 77] with Dbc.Parser.s_ENUM.
+  repeat match goal with |- context [Dbc.Ast.bytes_eqb a ?k] => destruct (Dbc.Ast.bytes_eqb a k); [reflexivity |] end.
+  reflexivity.
+Qed.
+
+(** ObjectType: "" (no object type token, [optional_object_type]'s first branch) or one of the four keywords *)
+Lemma T_ObjectType_Validate_eq o :
+  Translated.ObjectType_Validate o = (Dbc.Ast.bytes_eqb o [] || is_some (Dbc.Parser.object_type_of o)).
+Proof.
+  unfold Translated.ObjectType_Validate, Dbc.Parser.object_type_of. cbv zeta. change go_string_eqb with Dbc.Ast.bytes_eqb.
+  change [66; 85; 95] with Dbc.Parser.kw_nodes. change [66; 79; 95] with Dbc.Parser.kw_message.
+  change [83; 71; 95] with Dbc.Parser.kw_signal. change [69; 86; 95] with Dbc.Parser.kw_envvar.
+  destruct (Dbc.Ast.bytes_eqb o []); [reflexivity |]. cbn [orb].
+  repeat match goal with |- context [Dbc.Ast.bytes_eqb o ?k] => destruct (Dbc.Ast.bytes_eqb o k); [reflexivity |] end.
+  reflexivity.
 Qed.
